@@ -160,3 +160,142 @@ Section Facts.
     match input_ref ninputs n with Some k => Ok (VIn k, b) | None => Err EMissingInput end.
   Proof. reflexivity. Qed.
 End Facts.
+
+(* ------------------------------------------------------------------ *)
+(* parse_expr(..., defaults=True), lang.py lines 254-263 and 311:
+   args_map is a defaultdict(Source) preloaded with the supplied inputs under
+   the keys 0 .. len(args)-1; number n is looked up under key n-1 (number 0 is
+   key -1, which no supplied input has) and a missing key is filled with a new
+   Source() that stays in the dict.  [dmap] is the part of the dict that was
+   made up: number -> id of the source. *)
+Section Defaults.
+  Variable ninputs : nat.
+
+  Definition dmap := list (nat * nat).
+
+  Fixpoint dfind (n : nat) (m : dmap) : option nat :=
+    match m with
+    | [] => None
+    | (k, id) :: r => if Nat.eqb n k then Some id else dfind n r
+    end.
+
+  Definition supplied (n : nat) : option nat :=
+    match n with 0 => None | S k => if Nat.ltb k ninputs then Some k else None end.
+
+  (* args_map[input - 1]: the object, the dict and the object counter afterwards *)
+  Definition dlookup (n : nat) (m : dmap) (ctr : nat) : val * dmap * nat :=
+    match supplied n with
+    | Some k => (VIn k, m, ctr)
+    | None =>
+        match dfind n m with
+        | Some id => (VSrc id, m, ctr)
+        | None => (VSrc ctr, (n, ctr) :: m, S ctr)       (* __missing__: Source() *)
+        end
+    end.
+
+  (* what a parse does to the dict: numbers are looked up, and in between other
+     objects (operator instances, `-`, applications) are created *)
+  Inductive dop := DNum (n : nat) | DOther.
+
+  Fixpoint drun (ops : list dop) (m : dmap) (ctr : nat) : list (nat * val) :=
+    match ops with
+    | [] => []
+    | DOther :: r => drun r m (S ctr)
+    | DNum n :: r =>
+        match dlookup n m ctr with (v, m', c') => (n, v) :: drun r m' c' end
+    end.
+
+  Definition dval (m : dmap) (n : nat) : val :=
+    match supplied n with
+    | Some k => VIn k
+    | None => match dfind n m with Some id => VSrc id | None => VSrc 0 end
+    end.
+
+  Definition DInv (m : dmap) (ctr : nat) : Prop :=
+    (forall n id, dfind n m = Some id -> id < ctr) /\
+    (forall n1 n2 id, dfind n1 m = Some id -> dfind n2 m = Some id -> n1 = n2).
+
+  Lemma DInv_mono m c : DInv m c -> DInv m (S c).
+  Proof. intros [H1 H2]. split; [intros n id H; apply H1 in H; lia | exact H2]. Qed.
+
+  Lemma DInv_add m c n : DInv m c -> dfind n m = None -> DInv ((n, c) :: m) (S c).
+  Proof.
+    intros [H1 H2] Hn. split.
+    - intros k id. cbn [dfind]. destruct (Nat.eqb k n); [intros [= <-]; lia|].
+      intros H. apply H1 in H. lia.
+    - intros k1 k2 id. cbn [dfind].
+      destruct (Nat.eqb k1 n) eqn:E1, (Nat.eqb k2 n) eqn:E2.
+      + apply Nat.eqb_eq in E1, E2. congruence.
+      + intros [= <-] H. apply H1 in H. lia.
+      + intros H [= <-]. apply H1 in H. lia.
+      + apply H2.
+  Qed.
+
+  Lemma drun_spec ops : forall m ctr, DInv m ctr ->
+    exists m' c', DInv m' c' /\
+      (forall n id, dfind n m = Some id -> dfind n m' = Some id) /\
+      (forall n v, In (n, v) (drun ops m ctr) ->
+         v = dval m' n /\ (supplied n = None -> dfind n m' <> None)).
+  Proof.
+    induction ops as [|[n|] r IH]; intros m ctr HI; cbn [drun].
+    - exists m, ctr. split; [assumption|]. split; [auto|]. intros n v [].
+    - unfold dlookup. destruct (supplied n) as [k|] eqn:Es.
+      + destruct (IH m ctr HI) as (m' & c' & HI' & Hx & Hr). exists m', c'.
+        split; [assumption|]. split; [assumption|].
+        intros n0 v [[= <- <-]|Hin]; [|now apply Hr].
+        unfold dval. rewrite Es. split; [reflexivity | congruence].
+      + destruct (dfind n m) as [id|] eqn:Ef.
+        * destruct (IH m ctr HI) as (m' & c' & HI' & Hx & Hr). exists m', c'.
+          split; [assumption|]. split; [assumption|].
+          intros n0 v [[= <- <-]|Hin]; [|now apply Hr].
+          unfold dval. rewrite Es, (Hx _ _ Ef). split; [reflexivity|]. intros _. congruence.
+        * destruct (IH ((n, ctr) :: m) (S ctr) (DInv_add m ctr n HI Ef)) as (m' & c' & HI' & Hx & Hr).
+          exists m', c'. split; [assumption|]. split.
+          -- intros k id Hk. apply Hx. cbn [dfind]. destruct (Nat.eqb k n) eqn:E; [|assumption].
+             apply Nat.eqb_eq in E. subst. congruence.
+          -- assert (Hn : dfind n m' = Some ctr).
+             { apply Hx. cbn [dfind]. now rewrite Nat.eqb_refl. }
+             intros n0 v [[= <- <-]|Hin]; [|now apply Hr].
+             unfold dval. rewrite Es, Hn. split; [reflexivity|]. intros _. congruence.
+    - destruct (IH m (S ctr) (DInv_mono m ctr HI)) as (m' & c' & HI' & Hx & Hr).
+      exists m', c'. auto.
+  Qed.
+
+  Lemma DInv_init c : DInv [] c.
+  Proof. split; intros; discriminate. Qed.
+
+  (* every occurrence of a number denotes the same object ... *)
+  Theorem defaults_same_object ops c0 n v1 v2 :
+    In (n, v1) (drun ops [] c0) -> In (n, v2) (drun ops [] c0) -> v1 = v2.
+  Proof.
+    intros H1 H2. destruct (drun_spec ops [] c0 (DInv_init c0)) as (m' & c' & _ & _ & Hr).
+    destruct (Hr _ _ H1) as [-> _], (Hr _ _ H2) as [-> _]. reflexivity.
+  Qed.
+
+  (* ... and different numbers denote different objects *)
+  Theorem defaults_distinct ops c0 n1 n2 v1 v2 :
+    In (n1, v1) (drun ops [] c0) -> In (n2, v2) (drun ops [] c0) -> n1 <> n2 -> v1 <> v2.
+  Proof.
+    intros H1 H2 Hne. destruct (drun_spec ops [] c0 (DInv_init c0)) as (m' & c' & [_ Hinj] & _ & Hr).
+    destruct (Hr _ _ H1) as [-> N1], (Hr _ _ H2) as [-> N2]. unfold dval.
+    destruct (supplied n1) as [k1|] eqn:E1, (supplied n2) as [k2|] eqn:E2.
+    2:{ destruct (dfind n2 m'); discriminate. }
+    2:{ destruct (dfind n1 m'); discriminate. }
+    - intros [= ->]. apply Hne. unfold supplied in E1, E2.
+      destruct n1 as [|a]; [discriminate|]. destruct n2 as [|b]; [discriminate|].
+      destruct (Nat.ltb a ninputs); [|discriminate]. destruct (Nat.ltb b ninputs); [|discriminate].
+      congruence.
+    - specialize (N1 eq_refl). specialize (N2 eq_refl).
+      destruct (dfind n1 m') as [i1|] eqn:F1; [|congruence].
+      destruct (dfind n2 m') as [i2|] eqn:F2; [|congruence].
+      intros [= ->]. apply Hne. eapply Hinj; eauto.
+  Qed.
+
+  (* a supplied number is the supplied object; a made-up source is new *)
+  Theorem defaults_supplied ops c0 n v k :
+    In (n, v) (drun ops [] c0) -> supplied n = Some k -> v = VIn k.
+  Proof.
+    intros H Hs. destruct (drun_spec ops [] c0 (DInv_init c0)) as (m' & c' & _ & _ & Hr).
+    destruct (Hr _ _ H) as [-> _]. unfold dval. now rewrite Hs.
+  Qed.
+End Defaults.
